@@ -339,6 +339,83 @@ def encoder_data(fns):
     return out, skipped
 
 
+def process_dispatch(fns, enums):
+    """For every CommandCode variant: what the arm of process_packet's dispatch on the request's command does
+    that no other arm does - which response encoders it calls, whether it stores an EID, which panics it
+    contains - as a sorted list of tokens.  Raises Unsupported when the dispatch is not one switch over the
+    discriminant of a CommandCode with an arm per variant."""
+    cands = [f for f in fns if re.match(r"smbus::<impl at [^>]*>::process_packet$", f[0])]
+    if len(cands) != 1:
+        raise Unsupported("%d bodies named process_packet" % len(cands))
+    body = cands[0][3]
+    blocks, cur = {}, None
+    for l in body:
+        m = re.match(r"\s+bb(\d+)(?: \(cleanup\))?: \{$", l)
+        if m:
+            cur = int(m.group(1))
+            blocks[cur] = []
+            continue
+        if cur is not None:
+            if l.strip() == "}":
+                cur = None
+            elif l.strip():
+                blocks[cur].append(l.strip())
+    variants = enums.get("CommandCode", [])
+    sw = []
+    for b, ls in blocks.items():
+        m = re.match(r"switchInt\(move _(\d+)\) -> \[(.*)\];$", ls[-1]) if ls else None
+        if m and any(re.match(r"_%s = discriminant\(_\d+\);$" % m.group(1), x) for x in ls):
+            arms, other = {}, None
+            for a in m.group(2).split(","):
+                k, t = a.strip().split(":")
+                if k.strip() != "otherwise":
+                    arms[int(k)] = int(t.strip()[2:])
+                else:
+                    other = int(t.strip()[2:])
+            ds = [d for _, d in variants]
+            if set(arms) <= set(ds) and len(arms) >= len(ds) - 2 and other is not None:
+                for d in ds:
+                    arms.setdefault(d, other)      # variants handled by the wildcard arm
+                sw.append(arms)
+    if len(sw) != 1:
+        raise Unsupported("%d switches over all CommandCode variants in process_packet" % len(sw))
+    arms = sw[0]
+
+    def succ(b):
+        t = blocks[b][-1]
+        t = re.sub(r"unwind: bb\d+", "", t)
+        return [int(x) for x in re.findall(r"bb(\d+)", t)]
+
+    def reach(b):
+        seen, todo = set(), [b]
+        while todo:
+            x = todo.pop()
+            if x in seen or x not in blocks:
+                continue
+            seen.add(x)
+            todo += succ(x)
+        return seen
+    R = {d: reach(t) for d, t in arms.items()}
+    out = []
+    for v, d in variants:
+        others = set().union(*[R[o] for o in R if o != d and arms[o] != arms[d]])
+        toks = set()
+        for b in sorted(R[d] - others):
+            for l in blocks[b]:
+                m = re.search(r"= MCTPSMBusContextResponse::(\w+)\(", l)
+                if m:
+                    toks.add("respond:" + m.group(1))
+                m = re.search(r"= <MCTPSMBusContext(Request|Response) as SMBusMCTPRequestResponse>::set_eid\(", l)
+                if m:
+                    toks.add("store-eid:" + m.group(1).lower())
+                m = re.search(r"= (?:core::panicking::)?panic\(const \"(.*?)\"\)", l)
+                if m:
+                    toks.add("panic:" + ("unimplemented" if m.group(1).startswith("not implemented") else
+                                         "unreachable" if "unreachable" in m.group(1) else "other"))
+        out.append((v, sorted(toks)))
+    return out
+
+
 # ----------------------------------------------------------------------------- source text: bitfield! and constants
 
 def strip_comments(src):
@@ -461,6 +538,17 @@ def generate():
         status["encoder-headers:coverage"] = "translated (%d methods read; not read: %s)" % (len(eh), ", ".join(eh_skipped) or "none")
     else:
         status["encoder-headers"] = "not translated: no MIR"
+    # the dispatch of process_packet on the request's command
+    try:
+        if mir is None or "CommandCode" not in enums:
+            raise Unsupported("no MIR")
+        pd = process_dispatch(fns, enums)
+        L.append("/-- per command: what only that arm of process_packet's dispatch does (response encoders called, EID stores, panics) -/")
+        L.append("def processDispatch : List (CommandCode × List String) := [\n%s]\n" % ",\n".join(
+            "  (.%s, [%s])" % (v, ", ".join('"%s"' % t for t in ts)) for v, ts in pd))
+        status["process-dispatch"] = "translated"
+    except Unsupported as ex:
+        status["process-dispatch"] = "not translated: " + str(ex)[:200]
     # message data of the request encoders that build it as one array literal
     if mir is not None:
         ed, skipped = encoder_data(fns)
